@@ -480,14 +480,15 @@ static void front_ends(C& c, const char* expr)
         p.reset();
         emit(fmt("cmp dealloc 0 1 %zu %zu owner=%d", sizeof(T_<24, 8>), alignof(T_<24, 8>), owner), "done");
     }
-    {
+    for (std::size_t n : {std::size_t(5), std::size_t(1), std::size_t(0), std::size_t(7)})
+    { // arrays, the empty one included: request and release name the same count
         begin_op();
-        auto p = allocate_unique<T_<8, 8>[]>(c, 5);
-        emit("cmp alloc 1 5 8 8", "ok");
+        auto p = allocate_unique<T_<8, 8>[]>(c, n);
+        emit(fmt("cmp alloc 1 %zu 8 8", n), "ok");
         int owner = leaf_of(p.get());
         begin_op();
         p.reset();
-        emit(fmt("cmp dealloc 1 5 8 8 owner=%d", owner), "done");
+        emit(fmt("cmp dealloc 1 %zu 8 8 owner=%d", n, owner), "done");
     }
     { // unique_base_ptr: a derived type above 64 KiB (size used to be truncated to 16 bits)
         begin_op();
